@@ -21,25 +21,32 @@ fn judge(ev: &mut Ev, case: &DecCase, out: &DecOut) {
     }
 }
 
-/// After the stream has finished, reuse the decoder (documented panic) and re-validate the destination.
+/// After the stream has finished, reuse the decoder (documented panic) through each of the four safe str/String
+/// methods and re-validate the destination. The String destinations carry stale multi-byte text in their spare
+/// capacity (text that was pushed and then truncated away), at every phase.
 fn reuse_finished(ev: &mut Ev, enc: &'static Encoding, stream: &[u8], l: usize, filler: usize) {
-    ev.case();
-    let mut d = enc.new_decoder_without_bom_handling();
-    let mut big = vec![0u8; stream.len() * 3 + 16];
-    let _ = d.decode_to_utf8(stream, &mut big, true);
-    let mut buf = vec![0u8; l];
-    fill_valid_utf8(&mut buf, filler, filler / 4);
-    let mut s = String::from_utf8(buf).unwrap();
-    ev.api_calls += 2;
-    let r = catch_unwind(AssertUnwindSafe(|| { let _ = d.decode_to_str(b"ab\xE4\xB8\x80", &mut s[..], false); }));
-    ev.count(if r.is_err() { "reuse.panicked-as-documented" } else { "reuse.no-panic" });
-    if std::str::from_utf8(s.as_bytes()).is_err() { ev.violation("validity", &format!("{}:reuse-after-finish:str", crate::c01::family(enc)), format!("&mut str invalid after reusing a finished decoder: {}", hexs(s.as_bytes()))); }
-    let mut st = String::with_capacity(l + 8); st.push_str("\u{4E00}");
-    let mut d2 = enc.new_decoder_without_bom_handling();
-    let _ = d2.decode_to_utf8(stream, &mut big, true);
-    let r = catch_unwind(AssertUnwindSafe(|| { let _ = d2.decode_to_string(b"ab\xE4\xB8\x80", &mut st, false); }));
-    ev.count(if r.is_err() { "reuse.panicked-as-documented" } else { "reuse.no-panic" });
-    if std::str::from_utf8(st.as_bytes()).is_err() { ev.violation("validity", &format!("{}:reuse-after-finish:String", crate::c01::family(enc)), format!("String invalid after reusing a finished decoder: {}", hexs(st.as_bytes()))); }
+    let finished = || { let mut d = enc.new_decoder_without_bom_handling(); let mut big = vec![0u8; stream.len() * 3 + 16]; let _ = d.decode_to_utf8(stream, &mut big, true); d };
+    for method in 0..4 {
+        ev.case(); ev.api_calls += 2;
+        let mut d = finished();
+        let input: &[u8] = b"ab\xE4\xB8\x80";
+        let (bytes, what): (Vec<u8>, &str) = if method < 2 {
+            let mut buf = vec![0u8; l]; fill_valid_utf8(&mut buf, filler, filler / 4);
+            let mut s = String::from_utf8(buf).unwrap();
+            let r = catch_unwind(AssertUnwindSafe(|| { if method == 0 { let _ = d.decode_to_str(input, &mut s[..], false); } else { let _ = d.decode_to_str_without_replacement(input, &mut s[..], false); } }));
+            ev.count(if r.is_err() { "reuse.panicked-as-documented" } else { "reuse.no-panic" });
+            (s.into_bytes(), if method == 0 { "decode_to_str" } else { "decode_to_str_without_replacement" })
+        } else {
+            let mut buf = vec![0u8; l + 8]; fill_valid_utf8(&mut buf, filler, filler / 4);
+            let mut s = String::from_utf8(buf).unwrap();
+            let mut keep = (filler * 3) % (l + 1); while !s.is_char_boundary(keep) { keep -= 1; }
+            s.truncate(keep); // the rest of the old text stays behind in the spare capacity
+            let r = catch_unwind(AssertUnwindSafe(|| { if method == 2 { let _ = d.decode_to_string(input, &mut s, false); } else { let _ = d.decode_to_string_without_replacement(input, &mut s, false); } }));
+            ev.count(if r.is_err() { "reuse.panicked-as-documented" } else { "reuse.no-panic" });
+            (s.into_bytes(), if method == 2 { "decode_to_string" } else { "decode_to_string_without_replacement" })
+        };
+        if std::str::from_utf8(&bytes).is_err() { ev.violation("validity", &format!("reuse-after-finish:{}", what), format!("destination invalid after reusing a finished {} decoder through {}: {}", enc.name(), what, hexs(&bytes))); }
+    }
 }
 
 pub fn run(ctx: &Ctx, ev: &mut Ev) {
